@@ -43,6 +43,7 @@ def run(prog, rep, tier):
     r9_3(prog, rep)
     r9_4(prog, rep)
     r9_5(prog, rep)
+    r9_6(prog, rep)
     rep.floor("R9.1", 4)
     rep.floor("R9.2", 5)
     rep.floor("R9.4", 12)
@@ -142,6 +143,12 @@ def r9_1(prog, rep, dm):
     except AnalysisError as e:
         rep.defer(f"R9.1: {e}")
         return
+    # the value that is tested is the value that was passed: the parameter is never re-bound (an alias table, .lower(), a default
+    # substituted for None ... would make other spellings acceptable)
+    var = "na_action" if "na_action" in dm.params else dm.params[2]
+    rebinds = [n for n in ast.walk(dm.node) if isinstance(n, ast.Name) and n.id == var and isinstance(n.ctx, ast.Store)]
+    obl(rep, dm, rebinds[0] if rebinds else dm.node, "R9.1", not rebinds, f"`{var}` is validated and dispatched on as passed (never re-bound)", "",
+        f"`{var}` is re-bound before it is validated / dispatched on: values other than drop / error / pass can be accepted under another spelling")
     # any other value: refused before anything else happens
     other = O["<any other value>"]
     first = other["effects"][0] if other["effects"] else None
@@ -266,16 +273,93 @@ def r9_5(prog, rep):
         etxt, f"the stacked element is `{etxt}`: a data-dependent selection replaces the product, so NaN * 0 (missing numeric value in a "
         "row whose dummy is 0) is written as a number - under na_action='pass' the incomplete row no longer carries NaN in all the "
         "columns derived from its missing variable")
+    # the functions of the numeric path and the (new) package helpers they call
+    te = TypeEngine(prog)
+    scope = []
     for q in NUMERIC_PATH:
         f = prog.fn(q)
+        scope.append((q, f))
+        for t in sorted(te.callees(f.qual)):
+            g = prog.functions.get(t)
+            if g is not None and g.parent is None and g.cls is None and g.module.name in ("formulae.utils", "formulae.terms.terms") \
+                    and t not in {prog.fn(x).qual for x in NUMERIC_PATH} and not any(t == g2.qual for _, g2 in scope):
+                scope.append((t[len("formulae."):], g))
+    for q, f in scope:
         hits = []
         for c in calls_in(f.node, local=False):
             d = dotted(c.func) or ""
-            if d in NAN_MASKING or (isinstance(c.func, ast.Attribute) and c.func.attr in NAN_MASKING_METHODS):
+            if d in NAN_MASKING or (isinstance(c.func, ast.Attribute) and c.func.attr in NAN_MASKING_METHODS) or d in ("np.errstate", "np.seterr"):
                 hits.append(c)
+        # a masked / indexed store into the array that holds a product of data columns overwrites NaN with a number
+        products = set()
+        for st in walk_local(f.node):
+            if isinstance(st, ast.Assign) and len(st.targets) == 1 and isinstance(st.targets[0], ast.Name):
+                v = st.value
+                txt = unparse(v)
+                if "khatri_rao" in txt or "get_interaction_matrix" in txt or (isinstance(v, ast.BinOp) and isinstance(v.op, ast.Mult)) \
+                        or any(isinstance(n, ast.Name) and n.id in products for n in ast.walk(v)) and not isinstance(v, ast.Call):
+                    products.add(st.targets[0].id)
+        for st in walk_local(f.node):
+            if isinstance(st, (ast.Assign, ast.AugAssign)):
+                tg = st.targets[0] if isinstance(st, ast.Assign) else st.target
+                if isinstance(tg, ast.Subscript) and isinstance(tg.value, ast.Name) and tg.value.id in products \
+                        and not isinstance(tg.slice, ast.Constant):
+                    hits.append(st)
         obl(rep, f, hits[0] if hits else f.node, "R9.5", not hits, f"{q.split('.', 1)[1]}: no test for / replacement of missing values on the numeric path",
             "", "; ".join(f"`{short(h, 60)}`" for h in hits) + ": missing values are tested for or replaced while a numeric value is turned into "
             "its columns; under 'pass' NaN must reach exactly the columns derived from the missing variable")
+
+
+NAN_SKIPPING_AGGS = ("mean", "std", "var", "median", "sum", "min", "max")
+
+
+def r9_6(prog, rep):
+    """'pass': complete rows are encoded exactly as under 'drop'.  For center / scale / standardize this holds because their
+    statistics skip missing values: np.mean(x) / np.std(x) on a pandas Series dispatch to Series.mean / Series.std (skipna),
+    and so do x.mean() / x.std(); the same aggregate on a converted array (np.asarray(x), x.values, x.to_numpy()) does not
+    skip them and turns every row into NaN.  Structural part: in Center and Scale every statistic is taken on the argument
+    itself or by a nan-aware function."""
+    for cq in ("transforms.Center", "transforms.Scale"):
+        cls = prog.cls(cq)
+        f = cls.methods.get("__call__")
+        if f is None:
+            raise AnalysisError(f"{cq}.__call__ not found")
+        x = f.params[1]
+        converted = set()
+        for st in walk_local(f.node):
+            if isinstance(st, ast.Assign) and len(st.targets) == 1 and isinstance(st.targets[0], ast.Name):
+                v = st.value
+                d = dotted(v.func) if isinstance(v, ast.Call) else None
+                conv = (d in ("np.asarray", "np.array", "np.asanyarray", "np.ascontiguousarray") and v.args and unparse(v.args[0]) in ({x} | converted)) \
+                    or (isinstance(v, ast.Attribute) and v.attr == "values" and unparse(v.value) in ({x} | converted)) \
+                    or (isinstance(v, ast.Call) and isinstance(v.func, ast.Attribute) and v.func.attr in ("to_numpy", "astype", "ravel", "flatten")
+                        and unparse(v.func.value) in ({x} | converted) and v.func.attr == "to_numpy") \
+                    or (isinstance(v, ast.Call) and isinstance(v.func, ast.Attribute) and v.func.attr in ("astype", "ravel", "flatten", "copy")
+                        and unparse(v.func.value) in converted)
+                if conv:
+                    converted.add(st.targets[0].id)
+        n = 0
+        for c in calls_in(f.node, local=False):
+            d = dotted(c.func) or ""
+            agg = None
+            operand = None
+            if d.startswith("np.") and d[3:] in NAN_SKIPPING_AGGS and c.args:
+                agg, operand = d, c.args[0]
+            elif isinstance(c.func, ast.Attribute) and c.func.attr in NAN_SKIPPING_AGGS and not d.startswith("np."):
+                agg, operand = f".{c.func.attr}()", c.func.value
+            if agg is None:
+                continue
+            n += 1
+            txt = unparse(operand)
+            direct_conv = (isinstance(operand, ast.Call) and (dotted(operand.func) or "") in ("np.asarray", "np.array", "np.asanyarray")) \
+                or (isinstance(operand, ast.Attribute) and operand.attr == "values") \
+                or (isinstance(operand, ast.Call) and isinstance(operand.func, ast.Attribute) and operand.func.attr == "to_numpy")
+            bad = txt in converted or direct_conv
+            obl(rep, f, c, "R9.6", not bad, f"{cls.name}: `{short(c, 50)}` is taken on the argument itself (pandas skips missing values)", "",
+                f"`{short(c, 60)}` aggregates a converted numpy array: a single missing value makes the statistic NaN, so under na_action='pass' "
+                "every row of the term is NaN and complete rows are no longer encoded as under 'drop'")
+        if n == 0:
+            raise AnalysisError(f"R9.6: no location/scale statistic found in {cq}.__call__")
 
 
 def r9_3(prog, rep):
